@@ -390,7 +390,9 @@ def s_guard(F, res):
                                             if o2.kind == "call":
                                                 derived.append((t["line"], o2.callee.split("::")[-1]))
     missing = [bi for bi, si, st in mir.stmts(f) if st["rv"]["k"] == "agg" and st["rv"].get("adt") == "tx3_resolver::Error" and st["rv"]["variant"] == "MissingTxArg"]
-    missing_in_closure = [cbi for c, cbi in clos.items() if any(st["rv"]["k"] == "agg" and st["rv"].get("variant") == "MissingTxArg" for _, _, st in mir.stmts(F.fns[c]))]
+    # (a closure may build the error through a helper of the crate: `|(name, ty)| Err(missing_arg(name, ty))`)
+    missing_in_closure = [cbi for c, cbi in clos.items() if any(st["rv"]["k"] == "agg" and st["rv"].get("variant") == "MissingTxArg"
+                          for _, _, st in mir.stmts(mir.inline_calls(F, F.fns[c], want=e8_state.same_crate_policy("tx3_resolver"), depth=2)))]
     problems = []
     if not aa:
         raise BrokenCheck("resolve_tx (helpers inlined) no longer calls apply_args: anchor changed")
